@@ -145,7 +145,7 @@ def oracle_diag_ranges(case, impl):
                         why.append(f"the line starts with {left!r}")
                     verdicts.append(why)
                 else:
-                    m = _re.search(r"\(\?P<value>(.*?)\)", regex_key)
+                    m = _re.search(r"\(\?P?<value>(.*?)\)", regex_key)
                     inner = m.group(1) if m else regex_key
                     try:
                         verdicts.append([] if _re.fullmatch(inner, cut) else [f"not a match of the value group {inner!r}"])
@@ -1484,7 +1484,7 @@ def c19_scenario(rnd, k, fault_kind):
             cond, body = rnd.choice(made)
             attrs = f" check-ai=\"{cond}\"" if "\"" not in cond else f" check-ai='{cond}'"
             if rnd.random() < 0.5:
-                pat = rnd.choice(["k=(?P<value>\\w+)", "k=\\w+", "nomatch\\d{5}", "(?P<value>\\S+)$"])
+                pat = rnd.choice(["k=(?P<value>\\w+)", "k=\\w+", "nomatch\\d{5}", "(?P<value>\\S+)$", "k=(?<value>\\w+)", "k=(?P<val>\\w+)"])
                 attrs += f" check-ai-pattern='{pat}'"
                 patterns.append(pat)
         made.append((cond, body))
